@@ -625,7 +625,8 @@ class Rewriter:
         if c.get('must_forget_self'):
             # R37: a by-value `self` that is neither forgotten nor moved is dropped by Rust when the function returns; for the into_bump_*
             # conversions that Drop would release the buffer the result points into -- made explicit as a call whose `requires` is false
-            if not re.search(r'\bmem::forget\(self\)|\bManuallyDrop::new\(self\)|\bvec_forget\(self\b', b):
+            # (only when `self` is never used as a whole VALUE: a body that moves it somewhere else -- `let this = self;`, `f(self)` -- is not judged here)
+            if not re.search(r'\bmem::forget\(self\)|\bManuallyDrop::new\(self\)|\bvec_forget\(self\b', b) and not re.search(r'(?<![.\w&])self\b(?!\s*[.:\w])', b):
                 k = b.index('{')
                 b = b[:k + 1] + '\n        self_dropped_at_scope_end(); /* R37: implicit Drop of the by-value `self` */' + b[k + 1:]
                 self.fired('R37:implicit-drop-of-self')
